@@ -10,7 +10,7 @@ import traceback
 
 import z3
 
-from .values import Unsupported, RustPanic, PathInfeasible
+from .values import Unsupported, RustPanic, PathInfeasible, Inconclusive
 from .interp import Stats
 from . import engine
 
@@ -77,6 +77,10 @@ def explore(I, name, run_path, max_paths=2000, time_budget=None, seed=0, part=No
         try:
             run_path(I, scratch)
         except PathInfeasible:
+            continue
+        except Inconclusive as e:
+            res.inconclusive = "%s | decisions=%s" % (e, I.path.taken)
+            work.extend(I.path.alternatives())
             continue
         except Unsupported as e:
             res.fault = "Unsupported: %s | decisions=%s" % (e, I.path.taken)
@@ -268,9 +272,10 @@ class Check:
         if faults:
             for n, f in faults[:5]:
                 print("MACHINERY-FAULT scenario=%s %s" % (n, f[:1200]))
-            return 2
         if new_roles:
             return 1
+        if faults:
+            return 2
         if vacuous:
             print("MACHINERY-FAULT vacuous scenarios (oracle never fired): %s" % vacuous[:10])
             return 2
